@@ -8,46 +8,32 @@ package pebble
 //@ import vfs "github.com/cockroachdb/pebble/vfs"
 //@ import filepath "path/filepath"
 
-// Ghost crash model of a vfs.FS, at the granularity this package needs. Everything not yet made
-// durable is lost by a crash:
-//   vHas[p] / dHas[p]   path p exists in the volatile / durable namespace
-//   updName[d]          the DB directory name held by d/current.updating (its content is fsynced by
-//                       SaveCurrentDBDirName before it returns)
-//   vCur[d] / dCur[d]   the name held by d/current in the volatile / durable namespace ("" = no file)
-// A directory entry becomes durable only when its parent directory is synced (syncDir).
-//@ ghostfield any.vHas map[string]Bool
-//@ ghostfield any.dHas map[string]Bool
-//@ ghostfield any.updName map[string]string
-//@ ghostfield any.vCur map[string]string
-//@ ghostfield any.dCur map[string]string
-// syncedPath[p]: the CONTENT of file p has been fsynced (process-wide ghost on `world`); fpath: the path a file handle was created under
-//@ ghostfield any.syncedPath map[string]Bool
-//@ ghostfield any.fpath string
-// opened[p]: a pebble DB has been opened in directory p (its content was read and validated)
-//@ ghostfield any.opened map[string]Bool
-//@ iface vfs.FS.MkdirAll
+// The crash model of the file system (ghost state vHas/dHas/vCur/dCur/updName/opened on the vfs.FS,
+// fpath/ffs on file handles, world.syncedPath) and the ASSUMED contracts of the vfs operations are in
+// /verif/contracts/ext/vfs.spec. Every function of this package's dir.go is verified against them.
+
+//@ import runtime "runtime"
+//@ func filepath.Clean
 //@   assumed
-//@   params fs, dir, perm
-//@   ensures result == nil ==> fs.vHas[dir]
-//@   ensures forall p string :: old(fs.vHas[p]) ==> fs.vHas[p]
-//@   modifies fs.vHas
-// renaming d/current.updating to d/current repoints the volatile current of d; nothing becomes durable
-//@ iface vfs.FS.Rename
-//@   assumed
-//@   params fs, oldname, newname
-//@   ensures result == nil ==> forall d string :: oldname == pjoin(d, "current.updating") && newname == pjoin(d, "current") ==> fs.vCur[d] == old(fs.updName[d])
-//@   ensures forall d string :: !(newname == pjoin(d, "current")) ==> fs.vCur[d] == old(fs.vCur[d])
-//@   ensures forall p string :: p != oldname && old(fs.vHas[p]) ==> fs.vHas[p]
-//@   modifies fs.vCur, fs.vHas
-// syncing directory d makes its entries durable: children of d, and d's current file
+//@   ensures result == path      // ASSUMED: paths are handled in canonical form (Clean(p) names the same file as p)
+//@   modifies nothing
+
+// syncDir: syncing directory d makes its entries durable - children of d, and d's current file; a
+// sync that does not complete leaves each entry synced or not; for an existing directory it succeeds
 //@ func syncDir
-//@   assumed
-//@   ensures result == nil ==> (forall p string :: parentOf(p) == dir ==> fs.dHas[p] == fs.vHas[p]) && fs.dCur[dir] == fs.vCur[dir]
+//@   requires fs != nil
+//@   ensures [C04.syncdir.durable] result == nil ==> (forall p string :: parentOf(p) == dir ==> fs.dHas[p] == fs.vHas[p]) && fs.dCur[dir] == fs.vCur[dir]
+//@   ensures [C04.syncdir.done] fs.vHas[dir] && isDirP(fs, dir) ==> result == nil
 //@   ensures forall p string :: parentOf(p) != dir ==> fs.dHas[p] == old(fs.dHas[p])
 //@   ensures forall p string :: fs.dHas[p] == fs.vHas[p] || fs.dHas[p] == old(fs.dHas[p])      // a failed sync leaves each entry synced or not
 //@   ensures forall d string :: d != dir ==> fs.dCur[d] == old(fs.dCur[d])
 //@   ensures fs.dCur[dir] == fs.vCur[dir] || fs.dCur[dir] == old(fs.dCur[dir])
-//@   modifies fs.dHas, fs.dCur
+//@   ensures forall q string :: old(world.syncedPath[q]) ==> world.syncedPath[q]
+//@   dead return 1      // the windows branch: GOOS is a constant of the build
+//@   modifies fs.dHas, fs.dCur, world.syncedPath
+//@ func syncDir$1
+//@   requires *df != nil
+//@   modifies nothing
 
 // CreateNodeDataDir: the directory exists and its entry in the parent directory is durable
 //@ func CreateNodeDataDir
@@ -55,18 +41,39 @@ package pebble
 //@   ensures [C04.mkdir.durable] result == nil ==> fs.vHas[dir] && fs.dHas[dir]
 //@   ensures forall p string :: old(fs.dHas[p]) && old(fs.vHas[p]) ==> fs.dHas[p]
 //@   ensures forall d string :: fs.dCur[d] == old(fs.dCur[d]) || (d == parentOf(dir) && fs.dCur[d] == fs.vCur[d])
-//@   modifies fs.vHas, fs.dHas, fs.dCur
+//@   ensures result == nil ==> isDirP(fs, dir)
+//@   ensures forall q string :: old(world.syncedPath[q]) ==> world.syncedPath[q]
+//@   ensures forall q string :: old(fs.vHas[q]) ==> fs.vHas[q]
+//@   modifies fs.vHas, fs.dHas, fs.dCur, world.syncedPath
 
-// SaveCurrentDBDirName: writes and fsyncs d/current.updating holding the name (md5 + write: ASSUMED)
+// SaveCurrentDBDirName: creates d/current.updating, writes the name, fsyncs the content, closes, and
+// syncs the directory (deferred) - all verified against the body. What is NOT modelled is the byte
+// content (md5 prefix + name): that the file then HOLDS the name is recorded by a ghost assignment.
 //@ func SaveCurrentDBDirName
-//@   assumed
-//@   ensures result == nil ==> fs.updName[dir] == dbdir && world.syncedPath[pjoin(dir, "current.updating")]      // the content sync is proved by the secondary contract SaveCurrentDBDirName#sync
-// its deferred directory sync (whose error the code ignores: sync failures are outside the crash-only fault model) makes the entries of dir durable
-//@   ensures result == nil ==> forall p string :: parentOf(p) == dir && old(fs.vHas[p]) ==> fs.dHas[p]
+//@   requires fs != nil
+//@   requires [C04.save.dir] fs.vHas[dir] && isDirP(fs, dir)
+//@   ghostset fs.updName[dir] = dbdir
+//@   ensures [C04.save.name] result == nil ==> fs.updName[dir] == dbdir
+//@   ensures [C04.save.synced+C08] result == nil ==> world.syncedPath[pjoin(dir, "current.updating")]
+// its deferred directory sync makes the entries of dir durable (for an existing directory the sync does not fail)
+//@   ensures [C04.save.dirsync] result == nil ==> forall p string :: parentOf(p) == dir && old(fs.vHas[p]) ==> fs.dHas[p]
 //@   ensures forall p string :: old(fs.dHas[p]) && old(fs.vHas[p]) ==> fs.dHas[p] && fs.vHas[p]
 //@   ensures forall p string :: old(fs.vHas[p]) ==> fs.vHas[p]
-//@   ensures forall d string :: fs.dCur[d] == old(fs.dCur[d]) && fs.vCur[d] == old(fs.vCur[d])
-//@   modifies fs.updName, fs.vHas, fs.dHas, world.syncedPath
+//@   ensures forall d string :: d != dir ==> fs.dCur[d] == old(fs.dCur[d])
+//@   ensures forall d string :: fs.vCur[d] == old(fs.vCur[d])
+//@   ensures fs.dCur[dir] == old(fs.dCur[dir]) || fs.dCur[dir] == fs.vCur[dir]
+//@   ensures forall q string :: old(world.syncedPath[q]) ==> world.syncedPath[q]
+//@   modifies fs.updName, fs.vHas, fs.dHas, fs.dCur, world.syncedPath
+// the deferred close + directory sync
+//@ func SaveCurrentDBDirName$1
+//@   requires *f != nil && *fs != nil
+//@   ensures (*fs).vHas[*dir] && isDirP(*fs, *dir) ==> (forall p string :: parentOf(p) == *dir ==> (*fs).dHas[p] == (*fs).vHas[p]) && (*fs).dCur[*dir] == (*fs).vCur[*dir]
+//@   ensures forall p string :: parentOf(p) != *dir ==> (*fs).dHas[p] == old((*fs).dHas[p])
+//@   ensures forall p string :: (*fs).dHas[p] == (*fs).vHas[p] || (*fs).dHas[p] == old((*fs).dHas[p])
+//@   ensures forall d string :: d != *dir ==> (*fs).dCur[d] == old((*fs).dCur[d])
+//@   ensures (*fs).dCur[*dir] == (*fs).vCur[*dir] || (*fs).dCur[*dir] == old((*fs).dCur[*dir])
+//@   ensures forall q string :: old(world.syncedPath[q]) ==> world.syncedPath[q]
+//@   modifies (*fs).dHas, (*fs).dCur, world.syncedPath
 
 // ReplaceCurrentDBFile: the durable switch. The directory the new name points to must already be
 // durable - otherwise a crash after the switch leaves `current` naming a directory that does not
@@ -79,11 +86,12 @@ package pebble
 //@   ensures [C04.switch.keeps] forall p string :: p != pjoin(dir, "current.updating") && old(fs.dHas[p]) && old(fs.vHas[p]) ==> fs.dHas[p]
 //@   ensures forall d string :: d != dir ==> fs.dCur[d] == old(fs.dCur[d])
 //@   ensures [C04.switch.either] fs.dCur[dir] == old(fs.dCur[dir]) || fs.dCur[dir] == old(fs.updName[dir]) || fs.dCur[dir] == old(fs.vCur[dir])
-//@   modifies fs.vCur, fs.vHas, fs.dHas, fs.dCur
+//@   ensures forall q string :: old(world.syncedPath[q]) ==> world.syncedPath[q]
+//@   modifies fs.vCur, fs.vHas, fs.dHas, fs.dCur, world.syncedPath
 
 //@ func IsNewRun
-//@   assumed
-//@   ensures result == (fs.vCur[dir] == "")
+//@   requires fs != nil
+//@   ensures [C04.newrun] result == (fs.vCur[dir] == "")
 //@   modifies nothing
 //@ func GetCurrentDBDirName
 //@   assumed
@@ -95,39 +103,19 @@ package pebble
 //@   assumed
 //@   ensures result != "" && result != "current" && result != "current.updating"
 //@   modifies nothing
-// CleanupNodeDataDir removes everything in dir except `current` and the directory it names
+// CleanupNodeDataDir removes everything in dir except `current` and the directory it names: the
+// current names (volatile and durable) of dir and the directory current names survive
 //@ func CleanupNodeDataDir
-//@   assumed
-//@   ensures forall d string :: fs.dCur[d] == old(fs.dCur[d]) && fs.vCur[d] == old(fs.vCur[d])
-//@   ensures old(fs.vHas[pjoin(dir, fs.vCur[dir])]) ==> fs.vHas[pjoin(dir, fs.vCur[dir])]
-//@   ensures old(fs.dHas[pjoin(dir, fs.vCur[dir])]) ==> fs.dHas[pjoin(dir, fs.vCur[dir])]
-//@   modifies fs.vHas, fs.dHas
-
-// secondary contract, verified against the body: on success the content of current.updating has been
-// fsynced before the function returns (so the rename that follows cannot expose an empty or torn file)
-//@ iface vfs.FS.Create
-//@   assumed
-//@   params fs, name
-//@   results f, err
-//@   ensures err == nil ==> f != nil && f.fpath == name
-//@   ensures forall q string :: old(fs.vHas[q]) ==> fs.vHas[q]
-//@   modifies fs.vHas
-//@ iface vfs.File.Sync
-//@   assumed
-//@   params f
-//@   ensures result == nil ==> world.syncedPath[f.fpath]
-//@   ensures forall q string :: old(world.syncedPath[q]) ==> world.syncedPath[q]
-//@   modifies world.syncedPath
-//@ iface vfs.File.Close
-//@   assumed
-//@   modifies nothing
-//@ iface vfs.File.Write
-//@   assumed
-//@   modifies nothing
-//@ func SaveCurrentDBDirName$1
-//@   assumed
-//@   modifies (*fs).dHas, (*fs).dCur
-//@ func SaveCurrentDBDirName#sync
 //@   requires fs != nil
-//@   ensures [C04.save.synced+C08] result == nil ==> world.syncedPath[pjoin(dir, "current.updating")]
-//@   modifies fs.vHas, fs.dHas, fs.dCur, world.syncedPath, family(G_any_sdata), family(G_any_slen), family(G_any_nmsg), family(G_any_msg)
+//@   requires [C04.cleanup.name] fs.vCur[dir] != "current.updating" && fs.vCur[dir] != "current"
+//@   ensures [C04.cleanup.current] fs.dCur[dir] == old(fs.dCur[dir]) && fs.vCur[dir] == old(fs.vCur[dir])
+//@   ensures [C04.cleanup.keeps.v] old(fs.vHas[pjoin(dir, fs.vCur[dir])]) ==> fs.vHas[pjoin(dir, fs.vCur[dir])]
+//@   ensures [C04.cleanup.keeps.d] old(fs.dHas[pjoin(dir, fs.vCur[dir])]) ==> fs.dHas[pjoin(dir, fs.vCur[dir])]
+//@   ensures forall q string :: (fs.vHas[q] ==> old(fs.vHas[q])) && (fs.dHas[q] ==> old(fs.dHas[q]))
+//@   modifies fs.vHas, fs.dHas, fs.vCur, fs.dCur
+//@   loop 0 invariant -1 <= rangeindex && rangeindex < len(files) && err == nil && dbdir == old(fs.vCur[dir])
+//@   loop 0 invariant fs.dCur[dir] == old(fs.dCur[dir]) && fs.vCur[dir] == old(fs.vCur[dir])
+//@   loop 0 invariant old(fs.vHas[pjoin(dir, fs.vCur[dir])]) ==> fs.vHas[pjoin(dir, fs.vCur[dir])]
+//@   loop 0 invariant old(fs.dHas[pjoin(dir, fs.vCur[dir])]) ==> fs.dHas[pjoin(dir, fs.vCur[dir])]
+//@   loop 0 invariant forall q string :: (fs.vHas[q] ==> old(fs.vHas[q])) && (fs.dHas[q] ==> old(fs.dHas[q]))
+
